@@ -13,6 +13,9 @@ from mc import runner as RU
 from mc import spec as S
 
 ALL_SYM = None
+from mc import findings as _F  # noqa: E402
+
+_FINDINGS = _F.load()
 
 
 @dataclass
@@ -232,7 +235,7 @@ def work(arg: tuple) -> dict:
     suite = suites(prop, tier)[si]
     import time as _t
     _t0 = _t.time()
-    out = dict(cases=0, executions=0, transitions=0, states=0, capped=0, viol=[], internal=[], outcomes=0, sample=None, cpu=0.0, stock=0)
+    out = dict(cases=0, executions=0, transitions=0, states=0, capped=0, viol=[], internal=[], outcomes=0, sample=None, cpu=0.0, stock=0, tagged={})
     if suite.shared_switch_names:
         spec = S.share_switch_names(spec)
         if spec is None:
@@ -258,6 +261,9 @@ def work(arg: tuple) -> dict:
             for case in cases:
                 r = RU.run_case(case, suite.bound, suite.monitors, limit=suite.limit, reduce=suite.reduce)
                 out['cases'] += 1
+                for f_ in _FINDINGS:
+                    if prop in f_['properties'] and all(ft in r.tags for ft in (f_['feature'] if isinstance(f_['feature'], list) else [f_['feature']])):
+                        out['tagged'][f_['id']] = out['tagged'].get(f_['id'], 0) + 1
                 out['executions'] += r.executions
                 out['transitions'] += r.transitions
                 out['states'] += r.states
@@ -318,6 +324,7 @@ def run(prop: str, tier: str, seed: int) -> dict:
     items = RU.shuffled(items, seed)
     tot = dict(cases=0, executions=0, transitions=0, states=0, capped=0, outcomes=0, cpu=0.0, stock=0)
     per_suite: t.Dict[str, dict] = {}
+    tagged: t.Dict[str, int] = {}
     viol: t.List[dict] = []
     internal: t.List[str] = []
     samples: t.List[dict] = []
@@ -335,6 +342,8 @@ def run(prop: str, tier: str, seed: int) -> dict:
         ps['capped'] += res['capped']
         viol += res['viol']
         internal += res['internal']
+        for fid, n_ in res.get('tagged', {}).items():
+            tagged[fid] = tagged.get(fid, 0) + n_
         if res['sample'] and len(samples) < 4 and (not samples or samples[-1]['suite'] != res['sample']['suite']):
             samples.append(res['sample'])
     repo_tests = None
@@ -358,7 +367,7 @@ def run(prop: str, tier: str, seed: int) -> dict:
         schedules_cross_validated_on_stock_loop=tot['stock'],
         distinct_outcomes=tot['outcomes'],
         deviation_bound_completed={name: ps['bound'] for name, ps in per_suite.items()},
-        suites=per_suite, repo_tests=repo_tests, caps_hit=tot['capped'] + (repo_tests or {}).get('schedules_capped_tests', 0),
+        suites=per_suite, repo_tests=repo_tests, cases_in_open_finding_regions=tagged, caps_hit=tot['capped'] + (repo_tests or {}).get('schedules_capped_tests', 0),
         exhaustive=tot['capped'] == 0 and not (repo_tests or {}).get('schedules_capped_tests', 0),
         samples=samples or [dict(note='no case')],
         rule=('cases = (generated program, plan, configuration); every schedule with at most the stated number of '
